@@ -686,6 +686,13 @@ class InterpolatableFunction(ABC):
             self.newInterpolationTable(newMin, newMax, newPoints)
             return
 
+        # Points closer together than ~1e-8 of the table width cannot be resolved by a
+        # spline in double precision (an extension by a few ulp would even collapse them
+        # onto each other): append at most as many points as fit at that resolution
+        resolution = 1e-8 * (self._rangeMax - self._rangeMin)
+        pointsMin = min(int(pointsMin), int((self._rangeMin - newMin) / resolution))
+        pointsMax = min(int(pointsMax), int((newMax - self._rangeMax) / resolution))
+
         # what to append to lower end
         if newMin < self._rangeMin and pointsMin > 0:
 
